@@ -389,3 +389,7 @@ def run_thorough(ck):
         ck.configs.add(cfg)
         abort.check(ck, P, compress_roots(P), "ABORT/compress@" + cfg, abort_table.JUSTIFIED, api_fns=None, label="compression")
         lint(ck, P)
+
+# session 5 (round 9, D24)
+EXPLANATION = EXPLANATION + " " + (
+    'SIB/resume-gzindex (shared with C20): the two header-CRC bytes are appended only when the pending buffer has room for both (Pending::extend asserts the room).')
